@@ -176,9 +176,15 @@ void cmb_process_priority_set(struct cmb_process *pp, const int64_t pri)
             const struct cmi_hashheap *hp = (struct cmi_hashheap *)rgp;
             /* Resource guard hashkeys are process addresses */
             const uint64_t key = (uint64_t)pp;
-            /* Do not change the other priority key, queue entry time */
-            const double etime = cmi_hashheap_dkey(hp, key);
-            cmi_hashheap_reprioritize(hp, key, etime, pri);
+            /*
+             * May already have been granted and taken off the queue, with the
+             * wakeup event still pending. If not, do not change the other
+             * priority key, the queue entry time.
+             */
+            if (cmi_hashheap_is_enqueued(hp, key)) {
+                const double etime = cmi_hashheap_dkey(hp, key);
+                cmi_hashheap_reprioritize(hp, key, etime, pri);
+            }
         }
 
         ahead = ahead->next;
